@@ -419,3 +419,42 @@ func (c *Ctx) checkNamedFormOnlyForOwnName(r *Report, rule string) {
 		r.OkWhy(rule, ssaFuncName(entry), "every line is written as name=value", c.Pos(entry.Pos()), "no bare definition form")
 	}
 }
+
+// checkMissChargedToReceiver: part of rule C04.R2.
+//
+// A miss has to be seen by the call in progress: applyFunction compares the counter of the callee's own frame
+// before and after the body. Every increment of Environment.getMiss in package object is therefore made on the
+// receiver of the method it is in (the frame the access was made in), never on another environment the method
+// got to (the frame that owns the variable: nobody compares that counter around this call).
+func (c *Ctx) checkMissChargedToReceiver(r *Report, rule string) {
+	envT := c.TypeNamed("object", "Environment")
+	n := 0
+	for _, fn := range c.ModuleSSAFuncs() {
+		if fn.Pkg == nil || shortPkg(fn.Pkg.Pkg) != "object" || len(fn.Params) == 0 {
+			continue
+		}
+		k := 0
+		eachInstr(fn, func(in ssa.Instruction) {
+			st, ok := in.(*ssa.Store)
+			if !ok || !isFieldAddrOf(st.Addr, envT, "getMiss") {
+				return
+			}
+			add, ok := st.Val.(*ssa.BinOp)
+			if !ok || add.Op != token.ADD {
+				return
+			}
+			n++
+			k++
+			base := st.Addr.(*ssa.FieldAddr).X
+			desc := "the miss is charged to the frame the access is made in"
+			if k > 1 {
+				desc += " #" + itoa(k)
+			}
+			r.Check(base == ssa.Value(fn.Params[0]), rule, ssaFuncName(fn), desc, c.Pos(st.Pos()),
+				"the miss counter that is incremented is not the receiver's (the method moved on to another environment first, e.g. the one a reference points to): applyFunction compares the counter of the callee's own frame around the body, so this access goes unnoticed and a call that wrote an outer variable is memoized")
+		})
+	}
+	if n < 3 {
+		r.Undecided("%s: only %d miss increments found in package object", rule, n)
+	}
+}
